@@ -151,6 +151,9 @@ def correspondence(ctx):
                  "hostile CA entries: rootcas / intermediatecas entries of layouts and sublayouts, and caller-supplied intermediate PEMs, that hold public or "
                  "private keys (PKIX, PKCS1, PKCS8, SEC1), a certificate request, CERTIFICATE blocks with broken DER, two blocks, empty, text or 1 MiB blocks, "
                  "through InTotoVerify, InTotoVerifyWithDirectory and LoadLayoutCertificates (the OK / ERR verdict is recorded with every case). "
+                 "hostile parameter dictionaries (mutual and self references, chains, own markers, 200 kB values, 10000 parameters, edge and invalid names, "
+                 "empty and nil) with layouts using the markers in every substituted field, through SubstituteParameters, InTotoVerify (both wrappers) and "
+                 "InTotoVerifyWithDirectory, each in a child process with a 3 s deadline per call, a 1 GiB heap watchdog and an address-space limit. "
                  "non-trivial = all; distinct = distinct input JSON. quick tier applies a random 3/4 of the mutations per slot.")
     if ctx.tier == 'thorough':
         corr.violations += _fuzz(ctx)
